@@ -1028,6 +1028,9 @@ func (fe *FuncEnc) doConvert(f *Frame, x *ssa.Convert, st *State, path Term) {
 		fe.assume(tBool(true), tEq(fe.s2i(f.vals[x]), v))
 	case fs == SInt && ts == SInt, fs == SF64 && ts == SF64, fs == SStr && ts == SStr:
 		fe.setVal(x, v)
+	case fs == SSlice && ts == SStr && isByteSliceU(from):
+		e := fe.comp(st, "E_Int", arrSort(SInt, arrSort(SInt, SInt)))
+		fe.setVal(x, Term{fmt.Sprintf("(ext.bytes2str (select %s (s.ref %s)) (s.off %s) (s.len %s))", e.S, v.S, v.S, v.S), SStr})
 	case fs == SSlice && ts == SStr:
 		// []rune -> string
 		if !isRuneSliceU(from) {
@@ -1084,6 +1087,16 @@ func (fe *FuncEnc) doSlice(f *Frame, x *ssa.Slice, st *State, path Term) {
 		mx := get(x.Max, n)
 		fe.emit("safety.slice", fe.srcLabel(x.Pos(), "slice"), path, tAnd(tLe(tInt(0), lo), tLe(lo, hi), tLe(hi, mx), tLe(mx, n)), "slice bounds in range", x.Pos())
 		fe.setVal(x, mkSlice(ref, lo, tSub(hi, lo), tSub(mx, lo)))
+		if isVarargsAlloc(x.X) && arr.Len() <= 8 {
+			// name the cells of a small variadic list: the ground select terms let quantified callee contracts instantiate
+			es := fe.eng.sorts.sortOf(arr.Elem())
+			comp := fe.eng.arrayComp(x.X, arr.Elem())
+			e := fe.comp(st, comp, arrSort(SInt, arrSort(SInt, es)))
+			for k := int64(0); k < arr.Len(); k++ {
+				c := fe.fresh("va", es)
+				fe.addItem("(assert (= "+c.S+" "+tSelect(tSelect(e, ref), tInt(k)).S+"))", "")
+			}
+		}
 	default:
 		engErr("%s: slice of %s", fe.name, x.X.Type())
 	}
@@ -1191,4 +1204,13 @@ func rangeLimit(h *ssa.BasicBlock, phi *ssa.Phi) ssa.Value {
 		}
 	}
 	return nil
+}
+
+func isByteSliceU(t types.Type) bool {
+	s, ok := t.(*types.Slice)
+	if !ok {
+		return false
+	}
+	b, ok := s.Elem().Underlying().(*types.Basic)
+	return ok && (b.Kind() == types.Uint8)
 }
